@@ -32,7 +32,7 @@ CHECKS = {
          "6-C08", "About half of the steps of generated histories are calls constructed to be refused (collisions, version conflicts, malformed fields, header conflicts, contradictory group tags, read-only fields, unsupported VN on a Gfa of unknown version); whenever a call raises, the complete observation of the Gfa must equal the one taken before."),
  "C09": ("model-based histories of adds/renames/removals with collision attempts; namespace and lookup invariants after every step",
          "6-C09", "Histories over every identified record type with same-type and cross-type collisions (add and rename), integer-looking names and unused_name(); after each step the namespace, per-kind name lists, line()/segment() lookups and the written document are compared with the text model; collisions (also an ID given to a connected link, and a line that mentions its own identifier) must raise NotUniqueError and leave the state unchanged (documented merges excepted)."),
- "C10": ("random sequences of calls from an explicit catalogue of 70 read-only operations on generated Gfa states; deep fingerprint before/after each call and repeatability of results",
+ "C10": ("random sequences of calls from an explicit catalogue of 75 read-only operations on generated Gfa states; deep fingerprint before/after each call and repeatability of results",
          "6-C10", "After every call of a random sequence of read-only operations a deep fingerprint of the Gfa (texts, field values, ordered back-reference lists, name lists) must be unchanged and the repeated call must return an equal result."),
  "C13": ("exhaustive enumeration of short sequences of line kinds x version parameter x vlevel against a version-inference table + generated mixed documents in random orders",
          "6-C13", "All sequences of up to 3 (quick) / 4 (thorough) lines over 15 line kinds x version parameter x vlevel are enumerated (exhaustive: true for that part), incrementally and through Gfa(list); at vlevel 0, 1, 2, also with identical repeated lines; the inferred version / VersionError verdict must match the model table for every order and every queued line must appear exactly once."),
